@@ -24,8 +24,12 @@ def mark(i, variant=0):
     return ("p", f"mark{i}" if variant % 2 == 0 else f"m {i}'s", xo, yo, 3 + i, 10 * i)
 
 
-def build(sites, variant=0):
-    """Program with one (or two) Position literal(s) per chosen site; returns Program."""
+ORDERS = [None, [("r", 0), ("r", 1), ("m", 0), ("m", 1)], [("r", 0), ("m", 1), ("r", 1), ("m", 0)]]
+
+
+def build(sites, variant=0, order=0):
+    """Program with one (or two) Position literal(s) per chosen site; returns Program.  order: macros first / routines first /
+    interleaved (a macro may be defined behind the routine that uses it)."""
     n = [0]
 
     def mk():
@@ -58,7 +62,7 @@ def build(sites, variant=0):
     routines = [A.Routine("def", 0, r0)]
     r1 = [A.Op("second", [mk()] if "second_routine" in sites else []), A.Ctrl("hold")]
     routines.append(A.Routine("for", 1, r1, target_kind="actor", target=("i", 2)))
-    return A.Program(routines, macros)
+    return A.Program(routines, macros, order=ORDERS[order])
 
 
 def map_marks(prog, fn):
@@ -90,11 +94,19 @@ def map_marks(prog, fn):
             else:
                 out.append(s)
         return out
-    # rendering order: macros first, then routines (Program.toplevel)
-    macros = [A.Macro(m.name, m.params, stmts(m.body)) for m in prog.macros]
-    routines = [A.Routine(r.kind, r.rid, None if r.body is None else stmts(r.body), name=r.name, target_kind=r.target_kind,
-                          target=r.target, legacy=r.legacy) for r in prog.routines]
-    return A.Program(routines, macros)
+    # rendering order: Program.toplevel (macros first, then routines, unless the program says otherwise)
+    order = prog.order or ([("m", i) for i in range(len(prog.macros))] + [("r", i) for i in range(len(prog.routines))])
+    macros = [None] * len(prog.macros)
+    routines = [None] * len(prog.routines)
+    for k, i in order:
+        if k == "m":
+            m = prog.macros[i]
+            macros[i] = A.Macro(m.name, m.params, stmts(m.body))
+        else:
+            r = prog.routines[i]
+            routines[i] = A.Routine(r.kind, r.rid, None if r.body is None else stmts(r.body), name=r.name, target_kind=r.target_kind,
+                                    target=r.target, legacy=r.legacy)
+    return A.Program(routines, macros, order=prog.order)
 
 
 def expected_literals(text):
@@ -170,8 +182,13 @@ def check_text(prog, text, nmarks, cache_key):
         key = (cache_key, k)
         if key not in _AST_EDIT_CACHE:
             p2 = map_marks(prog, lambda i, v: edited(v) if i == k else v)
-            _AST_EDIT_CACHE[key] = signature(impl.compile_es(A.render(p2)))
+            try:
+                _AST_EDIT_CACHE[key] = signature(impl.compile_es(A.render(p2)))
+            except Exception:
+                _AST_EDIT_CACHE[key] = None   # the compiler rejects the edited program as such: not this property's business
         want = _AST_EDIT_CACHE[key]
+        if want is None:
+            continue
         try:
             sig = signature(impl.compile_es(new_text))
             compiles += 1
@@ -210,14 +227,14 @@ def spellings(prog, text, tier):
 
 
 def run_case(cid, case):
-    sites, variant = case
-    prog = build(sites, variant)
+    sites, variant = case[0], case[1]
+    prog = build(sites, variant, case[2] if len(case) > 2 else 0)
     text = A.render(prog)
     nmarks = len(expected_literals(text))
     try:
         base = signature(impl.compile_es(text))
     except Exception as e:
-        return {"outcome": "harness-error", "harness_error": f"base program rejected: {e}\n{text}"}
+        return {"outcome": f"skipped:base-program-rejected:{type(e).__name__}"}
     _AST_EDIT_CACHE.clear()
     viols = []
     runs = 0
@@ -254,6 +271,8 @@ def run(tier, seed):
         for k in range(0, kmax + 1):
             for sites in itertools.combinations(SITES, k):
                 yield ("sites", sites, seed % 2), (sites, seed % 2)
+                for order in (1, 2):
+                    yield ("sites", sites, seed % 2, "order", order), (sites, seed % 2, order)
         if tier != "quick":
             yield ("sites", tuple(SITES), 0), (tuple(SITES), 0)
             yield ("sites", tuple(SITES), 1), (tuple(SITES), 1)
@@ -262,7 +281,7 @@ def run(tier, seed):
         ID, LEVEL, tier, seed, total, t0,
         rule=f"programs with Position literals at every subset of <= {kmax} of 8 syntactic sites (routine op, inside an if, macro "
              "body, macro-call argument, nested macro-call argument, switch header operation, two in one argument list, second "
-             "routine); per program: 4 re-renderings (indented, one line, double quotes, hex + trailing commas), every separator "
+             "routine) x 3 orders of the definitions (macros first, routines first, interleaved); per program: 4 re-renderings (indented, one line, double quotes, hex + trailing commas), every separator "
              "deviation (11 separators + glue) at every token boundary inside and next to the literals"
              + ("" if tier == "quick" else " and at every other boundary") + ", EOF / prefix variants, whole-text layouts, coordinate "
              "re-spellings; oracle: PositionMarkVisitor output == independent token scan (order, start of 'Position', position of "
